@@ -4,7 +4,7 @@ as catching it (restricted to the engines the touched files concern), undoes it,
 still detected. Usage: bin/seeded_regression.py [id ...]"""
 import os, sys, json, subprocess, re, glob
 ROOT = os.path.dirname(os.path.dirname(os.path.abspath(__file__)))
-ids = sys.argv[1:] or sorted(os.listdir(os.path.join(ROOT, 'seeded')))
+ids = sys.argv[1:] or sorted(x for x in os.listdir(os.path.join(ROOT, 'seeded')) if os.path.isdir(os.path.join(ROOT, 'seeded', x)))
 def engines_for(patch):
     t = open(patch).read()
     e = set()
